@@ -24,6 +24,7 @@ func init() {
 			{ID: "C18.R3", Text: "parser table: Major ← Atoi(dot[0]), Minor ← Atoi(dot[1]), Patch ← Atoi(dash(dot[2])[0]), Build ← Atoi(dash(dash(dot[2])[1])[0]); each under exactly its existence conditions; errors returned except the build's", Run: c18r3},
 			{ID: "C18.R5", Text: "the serial-close gate is a function of the server version alone: the close mode is selected by streamEndNotSupportedData≠nil only, and that field is set only by NewStream's version test", Run: serialGateByVersion},
 			{ID: "C18.R6", Text: "the gate selects the right mode: the one-by-one close loop runs in the branch where the version gate is set, the concurrent close where it is not", Run: closeModePolarity},
+			{ID: "C18.R7", Text: "the change-stream gate reads the server's storage backend: IsMagma ⇔ the field decoded from \"storageBackend\" equals \"magma\"; IsEphemeral ⇔ the field decoded from \"bucketType\" equals \"ephemeral\" (exhaustive)", Run: bucketPredicates},
 			{ID: "C18.R4", Text: "the version the gates are evaluated on is the parser's result for the string the server reported: every non-nil version GetVersion returns is nodeVersionFromString(/pools implementationVersion) under that call's err == nil (no invented fallback version), and newDcp's gates use GetVersion's result", Run: c18r4},
 		},
 	})
